@@ -85,11 +85,11 @@ def spaces(tier, variant, seed):
     MODS = [1, 2, 3, 1 << 32, (1 << 32) + 1, M, (1 << 64), (1 << 64) + 1, (1 << 128) - 1, 10 ** 30]
     OPS = [("zub", n) for n in NB] + [("zrr", n) for n in (0, 1, 64, 65, 200)] + [("zum", m) for m in MODS] + \
           [("ubui", k) for k in (0, 1, 31, 32, 33, 63, 64)] + [("umui", m) for m in (1, 2, 3, 1 << 32, M, 1000003)] + \
-          [("nub", n) for n in (1, 64, 65, 130)] + [("num", m) for m in (3, (1 << 64) + 1, (1 << 128) - 1)] + [("nrb", n) for n in (1, 2, 5)] + \
+          [("nub", n) for n in (1, 64, 65, 130)] + [("num", m) for m in (3, (1 << 64) + 1, (1 << 128) - 1, 1, 2, 1 << 63, 1 << 64, 1 << 128, (1 << 64) - 1)] + [("nrb", n) for n in (1, 2, 5)] + \
           [("nrr", n) for n in (1, 2, 5)] + [("fub", n) for n in (1, 53, 64, 100, 256)] + [("reseed", s) for s in (7, (1 << 80) + 3)]
     if quick:
         OPS_D = [o for o in OPS if o in (("zub", 1), ("zub", 64), ("zub", 65), ("zub", 1000), ("zrr", 65), ("zum", 3), ("zum", (1 << 64) + 1), ("ubui", 33), ("ubui", 64), ("umui", 3),
-                                         ("umui", M), ("nub", 65), ("num", (1 << 64) + 1), ("nrb", 2), ("nrr", 2), ("fub", 100), ("reseed", 7))]
+                                         ("umui", M), ("nub", 65), ("num", (1 << 64) + 1), ("num", 1 << 64), ("nrb", 2), ("nrr", 2), ("fub", 100), ("reseed", 7))]
     else:
         OPS_D = OPS
 
@@ -269,6 +269,48 @@ def spaces(tier, variant, seed):
         f_clear(pc)
         R.count("states", 3 * i)
         return (ki, si, adv, chunk)
+
+    # a used state that is seeded again must behave exactly like a fresh state given the same seed (the seed determines the stream)
+    RS_SEEDS = list(range(0, 34)) + [5489, 1 << 32, (1 << 64) + 1, (1 << 19936) | 12345, al.PAT(5)["dense"], (1 << 19937) - 1]
+
+    def rs_cases(blk):
+        ki, part = blk
+        for si, sd in enumerate(RS_SEEDS):
+            if si % 4 != part:
+                continue
+            for adv in (0, 1, 100, 700):
+                for s0 in (1, (1 << 19936) | 1):
+                    yield (ki, si, adv, s0 % (1 << 64) if KINDS[ki][0] != "mt" and KINDS[ki][0] != "default" else s0)
+
+    def rs_one(case, R):
+        ki, si, adv, s0 = case
+        kind, sd = KINDS[ki], RS_SEEDS[si]
+        tag = "%s first seed %x.. advanced %d words, then seed %x.." % (kind, s0 % (1 << 64), adv, sd % (1 << 64))
+        st1, p1 = mkstate(kind, s0)
+        for _ in range(adv):
+            f_ub_ui(p1, 32)
+        e = env()
+        e["z"][2].set(sd)
+        f_seed(p1, e["z"][2].p)
+        st2, p2 = mkstate(kind, None)
+        e["z"][2].set(sd)
+        f_seed(p2, e["z"][2].p)
+        for i in range(720):
+            a, b = f_ub_ui(p1, 32), f_ub_ui(p2, 32)
+            if a != b:
+                R.fail("gmp_randseed", "%s: 32-bit draw %d after the re-seed is %x, a fresh state seeded alike gives %x" % (tag, i, a, b))
+                break
+        a = do_op(R, p1, ("zub", 1000), tag, pre=0)
+        b = do_op(R, p2, ("zub", 1000), tag, pre=1)
+        if a != b:
+            R.fail("gmp_randseed", "%s: 1000-bit draw differs from a fresh state seeded alike" % tag)
+        f_clear(p1)
+        f_clear(p2)
+        R.count("states", 2)
+        return (ki, si % 7, adv)
+
+    sp.append(Space("reseed_equals_fresh", [(ki, part) for ki in range(len(KINDS)) for part in range(4)], rs_cases, rs_one,
+                    "a state seeded with s0, advanced by 0/1/100/700 words and seeded again with s gives the same 720 words (and a 1000-bit draw) as a fresh state seeded with s: s in 0..33, 5489, multi-limb seeds with bit 19936 set/clear"))
 
     sp.append(Space("long_draws_after_copy", [(ki, si) for ki in range(len(KINDS)) for si in (0, 3)], ld_cases, ld_one,
                     "state advanced by 0..1000 words, copied, then original, same-seeded twin and copy draw 90 kbit in chunks of 32/64/65/130/1000/19968 bits into destinations with different previous contents: identical streams"))
